@@ -286,7 +286,7 @@ prop("C16", M_FAULT + [B_SYNC] + B_WRAP, trusted_base=TB_COMMON + M_TB + B_TB, r
 
 R_B = "B-harness rule: the real byte-level function on a symbolic file image."
 prop("C04", list(M_ITER.values()) + [B_SCAN_SMALL[1], B_SCAN_SMALL[3], B_SCAN_SMALL[4], B_SCAN_G[32], B_SCAN_AT["128_at56"], B_SCAN_AT["128_at120"], thorough(M_ITER_X[1]), thorough(M_ITER_X[2]), thorough(B_SCAN_SMALL[0]), thorough(B_SCAN_SMALL[2]), B_SCAN_AT["128_at0"], B_SCAN_AT["128_at64"], B_SCAN_AT["256_at184"], B_SCAN_G[64], B_SCAN_G[128], B_SCAN_G[256], M_ITER_X[0], M_ITER_X[3], M_BIG["iter_mut"]],
-     trusted_base=TB_COMMON + M_TB + B_TB, rule=R_M + " " + R_B, bounds="iterators: " + M_BOUNDS + "; bucket scan: tables of 2, 8, 16 (thorough also 1, 4) buckets with every start index, 32 (thorough: 64..512) buckets with every group-aligned start index, 128 buckets from the start indices 56 and 120 (thorough: 0, 64; 256 from 184), all table bytes symbolic",
+     trusted_base=TB_COMMON + M_TB + B_TB, rule=R_M + " " + R_B, bounds="iterators: " + M_BOUNDS + "; bucket scan: tables of 2, 8, 16 (thorough also 1, 4) buckets with every start index, 32 (thorough: 64..256) buckets with every group-aligned start index, 128 buckets from the start indices 56 and 120 (thorough: 0, 64; 256 from 184), all table bytes symbolic",
      outside=["modification during a traversal (excluded by the property)", "tables of more than 256 buckets (512 buckets with every aligned start index ran out of 24 GB after 45 min and is not registered): the scan code depends on n only through the loop bounds idx + 8 < n and idx < n and the 64-bucket stride, all of which are crossed at 128..256"])
 prop("C02", B_OPEN_EX + [B_OPEN_NEW] + B_OPEN_DAT + B_HDRW + [MB["lookup"], K_HASH()[0], thorough(MV["lookup"]), M_2STEP],
      trusted_base=TB_COMMON + M_TB + B_TB, rule=R_B, bounds="stored tables of 2 and 8 buckets with symbolic contents; all parameter values",
